@@ -362,7 +362,7 @@ def c17():
              "evaluations": lc["evaluations"], "library_histories": {k: lc[k] for k in ("traces_validated_against_impl", "configs", "divergences", "rule")},
              "samples": lc["samples"]}
     return simple_cases_check(
-        "C17", "GrlGrammar.tla", ["MCGrammar.cfg"], "gram-replay",
+        "C17", "GrlGrammar.tla", ["MCGrammar.cfg"] + (["MCGrammarDouble.cfg"] if tier_seed()[0] == "thorough" else []), "gram-replay",
         rule="case = token-kind document: one of three valid documents (together using every construct of the grammar) or one single mutation of it - "
              "delete / duplicate / swap a token, replace it by or insert any of 33 token kinds (incl. illegal character, unterminated string, invalid "
              "escape, integer beyond int64, salience beyond int32, a repeated rule name, keywords in any case) at every position; the harness prints "
